@@ -29,7 +29,7 @@ pub struct Failure {
 }
 
 pub fn nun_env() -> BTreeMap<String, String> {
-    std::env::vars().filter(|(k, _)| k.starts_with("NUN_") && k != "NUN_DBS_DIR").collect()
+    std::env::vars().filter(|(k, _)| k.starts_with("NUN_") && k != "NUN_DBS_DIR" && k != "NUN_S3_API_URL" && k != "NUN_S3_RETRY").collect()
 }
 
 #[derive(Serialize, Deserialize, Default, Debug)]
